@@ -1656,3 +1656,156 @@ def td_options_findings(seed, n=6, max_findings=3):
             bad('td-options-raise:' + type(e).__name__, 'a nested transdimensional run with %s raised %r' % (
                 'reset_after_swap' if pt else 'reset/rewind', e), cfg)
     return out, nchecks
+
+
+def nested_reset_findings(seed, full=False):
+    """C19 on chains whose adaptive proposals sit INSIDE a NestedTransdimensional proposal (the in-model
+    proposals and the model-index proposal): `Chain.reset_proposals()` -- and `reset_after_swap` -- must
+    return every adaptive proposal reachable from the chain to its construction-time distribution and
+    restart its window at the current proposal step."""
+    import random as _random
+    import numpy
+    import alias
+    from epsie.chain import Chain
+    from epsie import proposals as P
+    from epsie.samplers import ParallelTemperedSampler
+    rng = _random.Random(seed * 7919 + 19)
+    findings, stats = [], {'chains': 0, 'adaptive_inner_proposals': 0, 'resets': 0, 'pt_runs': 0,
+                           'changed_before_reset': 0}
+    K = 4
+    names = ['a%d' % i for i in range(1, K + 1)]
+
+    def model(**kw):
+        k = int(kw['k'])
+        act = [kw[n] for n in names if not numpy.isnan(kw[n])]
+        if len(act) != k or any(not (0. <= a <= 4.) for a in act) or not (0 <= k <= K):
+            return -1e3, -numpy.inf
+        return -0.5 * sum((a - 2.) ** 2 for a in act) / 0.09, 0.
+
+    inner_kinds = {
+        'ss_adaptive_normal': lambda n: P.SSAdaptiveNormal([n]),
+        'adaptive_normal': lambda n: P.AdaptiveNormal([n], {n: 4.}, 12),
+        'at_adaptive_normal': lambda n: P.ATAdaptiveNormal([n], 12),
+        'adaptive_bounded_normal': lambda n: P.AdaptiveBoundedNormal([n], {n: (0., 4.)}, 12),
+    }
+
+    def build(kind, adaptive_index):
+        births = [P.UniformBirth([n], {n: (0., 4.)}) for n in names]
+        tds = [inner_kinds[kind](n) for n in names]
+        if adaptive_index:
+            mp = P.AdaptiveBoundedDiscrete(['k'], {'k': (0, K)}, 12, successive={'k': True})
+        else:
+            mp = P.BoundedDiscrete(['k'], boundaries={'k': (0, K)}, successive={'k': True})
+        return P.NestedTransdimensional(names + ['k'], mp, tds, births)
+
+    def reachable(chain):
+        out = []
+        for pr in chain.proposal_dist.proposals:
+            out.append(('top', pr))
+            for q in list(getattr(pr, 'proposals', [])):
+                out.append(('in-model', q))
+            mp = getattr(pr, 'model_proposal', None)
+            if mp is not None:
+                out.append(('model-index', mp))
+        return out
+
+    def adaptive(pr):
+        return hasattr(pr, 'start_step') and getattr(pr, '_initial_proposal_params', None) is not None
+
+    start = dict({n: numpy.nan for n in names}, a1=2.1, a2=1.8, k=2)
+    kinds = sorted(inner_kinds) if full else rng.sample(sorted(inner_kinds), 2)
+    for kind in kinds:
+        for adaptive_index in (False, True):
+            ch = Chain(names + ['k'], model, [build(kind, adaptive_index)], bit_generator=rng.randrange(1, 10 ** 6))
+            ch.start_position = dict(start)
+            props = [(w, q) for w, q in reachable(ch) if adaptive(q)]
+            initial = [alias.dist_digest(q) for _, q in props]
+            stats['chains'] += 1
+            stats['adaptive_inner_proposals'] += len(props)
+            for rnd in range(2):
+                for _ in range(rng.randint(15, 30)):
+                    ch.step()
+                before = [alias.dist_digest(q) for _, q in props]
+                stats['changed_before_reset'] += sum(1 for a, b in zip(initial, before) if a != b)
+                ch.reset_proposals()
+                stats['resets'] += 1
+                for (where, q), ini in zip(props, initial):
+                    now = alias.dist_digest(q)
+                    bad = sorted(k for k in ini if k != 'start_step' and repr(now.get(k)) != repr(ini[k]))
+                    want_start = max(q.nsteps, 1)
+                    if bad or q.start_step != want_start:
+                        findings.append((
+                            'nested-not-reset:%s:%s' % (where, kind if where == 'in-model' else type(q).__name__),
+                            'Chain.reset_proposals() left the adaptive %s proposal %s of a NestedTransdimensional '
+                            'proposal adapted (reset no. %d): attributes %s differ from their construction-time '
+                            'values, start_step %r (the current proposal step is %r)' % (
+                                where, type(q).__name__, rnd + 1, bad[:4], q.start_step, want_start),
+                            {'inner': kind, 'adaptive_index_proposal': adaptive_index, 'reset_number': rnd + 1,
+                             'seed': seed, 'search': 'nested_reset'}))
+                        break
+                if findings:
+                    break
+            if findings and not full:
+                return findings, stats
+    return findings, stats
+
+
+def ladder_reassign_findings(seed):
+    """C17 through the remaining public ways of giving a chain its ladder: (i) assigning
+    `ParallelTemperedChain.betas` AFTER construction (a public setter) and running on -- the levels must
+    sample at the ladder the sweeps use and the sampler reports; (ii) a chain with a single temperature
+    that is given a dynamical annealer (nothing to anneal): its only beta is both the coldest and the
+    hottest and must stay as given."""
+    import numpy
+    from epsie.samplers import ParallelTemperedSampler
+    from epsie.chain.ptchain import DynamicalAnnealer, ParallelTemperedChain
+    from epsie.proposals import Normal
+    rng = random.Random(seed * 31 + 17)
+    out, stats = [], {'reassigned_ladders': 0, 'iterations_checked': 0, 'single_temperature_annealers': 0}
+
+    def model(x):
+        return -math.floor(x * x * 8) / 16.0, 0.0
+
+    for trial in range(4):
+        nt = rng.choice([2, 3, 4])
+        first = sorted({1.0} | {rng.choice(plumbing.DYADIC_BETAS[1:]) for _ in range(6)}, reverse=True)[:nt]
+        while len(first) < nt:
+            first.append(first[-1] / 2)
+        second = [1.0] + sorted([b * rng.choice([0.5, 0.75]) for b in first[1:]], reverse=True)
+        smp = ParallelTemperedSampler(['x'], model, 2, betas=numpy.array(first), swap_interval=rng.choice([1, 2]),
+                                      proposals=[Normal(['x'])], seed=rng.randrange(1, 10 ** 6))
+        smp.start_position = {'x': numpy.full((nt, 2), 0.5)}
+        smp.run(3)
+        given = list(second)
+        if trial % 2:
+            rng.shuffle(given)
+        for ch in smp.chains:
+            ch.betas = numpy.array(given)
+        stats['reassigned_ladders'] += 1
+        for it in range(4):
+            smp.run(1)
+            stats['iterations_checked'] += 1
+            for ci, ch in enumerate(smp.chains):
+                lad = [float(b) for b in ch.betas]
+                lev = [float(l.beta) for l in ch.chains]
+                rep = [float(b) for b in numpy.atleast_2d(smp.betas)[ci]] if numpy.ndim(smp.betas) > 1 else [float(b) for b in smp.betas]
+                if lad != sorted(second, reverse=True) or lev != lad:
+                    out.append(('ladder-reassigned-levels-keep-old-betas',
+                                'betas assigned to a tempered chain after construction (%r, first ladder %r): the '
+                                'ladder used by the sweeps is %r but the levels sample at %r' % (given, first, lad, lev),
+                                {'detail': {'first': first, 'assigned': given, 'ladder': lad, 'levels': lev,
+                                            'reported': rep, 'iteration_after': it + 1, 'seed': seed}}))
+                    return out, stats
+    for tmax in (True, False):
+        ch = ParallelTemperedChain(['x'], model, [Normal(['x'])], betas=1.0,
+                                   adaptive_annealer=DynamicalAnnealer(Tmax_prior=tmax), bit_generator=seed % 1000 + 5)
+        stats['single_temperature_annealers'] += 1
+        lad = [float(b) for b in ch.betas]
+        lev = [float(l.beta) for l in ch.chains]
+        if lad != [1.0] or lev != [1.0]:
+            out.append(('single-temperature-annealer-overwrites-beta',
+                        'a tempered chain with the single temperature beta = 1 and a DynamicalAnnealer(Tmax_prior=%r) '
+                        'holds ladder %r and samples at %r: the coldest beta did not stay as given' % (tmax, lad, lev),
+                        {'detail': {'Tmax_prior': tmax, 'ladder': lad, 'levels': lev}}))
+            break
+    return out, stats
